@@ -495,7 +495,86 @@ func c18Families(tier string) []explore.Family {
 		if r.WantSample() {
 			r.Sample(map[string]any{"template": t.src, "deviations": fmt.Sprint(c.devs), "observed": trunc80(o.String())})
 		}
-	}}}
+	}}, c18ExplicitFamily()}
+}
+
+// ---- second family: values that only SOME representations can hold, written out as explicit equivalence classes:
+// empty inner collections held as nil typed slices/maps, and Drops whose Go value is nil (a nil *T, a nil named
+// slice or map) but whose ToLiquid is well defined on a nil receiver. Every member of a class renders every
+// template like the first (generic) member.
+type c18NilUser struct{ name string }
+
+func (u *c18NilUser) ToLiquid() any {
+	if u == nil {
+		return "guest"
+	}
+	return u.name
+}
+
+type c18Tags []string
+
+func (t c18Tags) ToLiquid() any { return map[string]any{"count": len(t), "list": []string(t)} }
+
+type c18Opts map[string]any
+
+func (o c18Opts) ToLiquid() any {
+	if o == nil {
+		return []any{"default"}
+	}
+	return []any{"custom"}
+}
+
+func c18ExplicitFamily() explore.Family {
+	type class struct {
+		name    string
+		members []func() any
+		tpls    []string
+	}
+	containerTpls := []string{"{{ a | size }}|{{ a | compact | size }}|{{ a | join: ',' }}|{{ a | first | size }}|{% if a.first %}T{% else %}F{% endif %}|{% if a.first == nil %}N{% else %}V{% endif %}",
+		"{% for x in a %}[{{ x | size }}:{{ x | join: '+' }}]{% endfor %}|{{ a | reverse | first | join }}|{{ a | uniq | size }}|{{ a.last | first }}|{{ a[0] | default: 'dflt' }}", "{{ a }}|{{ a | last }}|{{ a | map: 'k' | size }}|{{ a | concat: a | compact | size }}"}
+	dropTpls := []string{"{{ d }}|{% if d %}T{% else %}F{% endif %}|{{ d | default: 'dflt' }}|{% if d == nil %}N{% else %}V{% endif %}", "{{ h.d }}|{{ l[0] }}|{{ l | join: ',' }}|{{ l | compact | size }}|{% for x in l %}[{{ x }}]{% endfor %}",
+		"{{ d.count }}|{{ d.list | size }}|{{ d | first }}|{{ d | size }}|{% case d %}{% when 'guest' %}G{% else %}E{% endcase %}"}
+	classes := []class{
+		{"list of an empty and a non-empty list", []func() any{
+			func() any { return []any{[]any{}, []any{1, 2}} }, func() any { return [][]int{nil, {1, 2}} }, func() any { return [][]int{{}, {1, 2}} },
+			func() any { return []any{[]int(nil), []int{1, 2}} }, func() any { return [2][]int{nil, {1, 2}} }, func() any { return []any{[0]int{}, [2]int{1, 2}} }}, containerTpls},
+		{"list of an empty and a non-empty map", []func() any{
+			func() any { return []any{map[string]any{}, map[string]any{"k": 1}} }, func() any { return []map[string]any{nil, {"k": 1}} },
+			func() any { return []map[string]int{{}, {"k": 1}} }, func() any { return []any{map[string]int(nil), map[string]any{"k": 1}} }}, containerTpls},
+		{"a Drop yielding 'guest'", []func() any{
+			func() any { return "guest" }, func() any { return (*c18NilUser)(nil) }, func() any { return &c18NilUser{"guest"} }, func() any { return univ.Drop{V: "guest"} }}, dropTpls},
+		{"a Drop yielding {count:0,list:[]}", []func() any{
+			func() any { return map[string]any{"count": 0, "list": []string{}} }, func() any { return c18Tags(nil) }, func() any { return c18Tags{} }}, dropTpls},
+		{"a Drop yielding ['default']", []func() any{
+			func() any { return []any{"default"} }, func() any { return c18Opts(nil) }, func() any { return univ.Drop{V: []any{"default"}} }}, dropTpls},
+	}
+	type job struct{ c, m, t int }
+	var jobs []job
+	for ci, c := range classes {
+		for mi := 1; mi < len(c.members); mi++ {
+			for ti := range c.tpls {
+				jobs = append(jobs, job{ci, mi, ti})
+			}
+		}
+	}
+	return explore.Family{Name: "nil-held-and-empty-values", Count: int64(len(jobs)), Run: func(i int64, r *explore.Rec) {
+		jb := jobs[i]
+		c := classes[jb.c]
+		src := c.tpls[jb.t]
+		env := func(v any) map[string]any {
+			return map[string]any{"a": v, "d": v, "h": map[string]any{"d": v}, "l": []any{v, 1}}
+		}
+		r.Eval()
+		r.Eval()
+		r.Transition()
+		r.Trace()
+		b0 := Render(c18.eng, src, env(c.members[0]()))
+		o := Render(c18.eng, src, env(c.members[jb.m]()))
+		r.Class("explicit/" + c.name)
+		if o.Sig() != b0.Sig() {
+			r.Violation("representation:nil-held:"+c.name, map[string]any{"template": src, "value": c.name, "representation": fmt.Sprintf("%T (member %d)", c.members[jb.m](), jb.m)}, b0.String(), o.String())
+		}
+	}}
 }
 
 // c18Where names the first |-separated segment of the template whose output differs (violation key).
